@@ -279,7 +279,10 @@ CGraph::ItemsGroup CGraph::GetAllLoopsItems() const {
   std::vector<bool> marked(size(graph), false);
   std::vector<VertexIndex> toVisit{};
   std::vector<VertexIndex> component{};
-  for (const auto index : InternalOrder()) {
+  // Kosaraju: reverse post-order of the graph, search over the transposed graph
+  auto order = InternalOrder();
+  std::reverse(begin(order), end(order));
+  for (const auto index : order) {
     if (marked[index]) {
       continue;
     }
@@ -290,7 +293,7 @@ CGraph::ItemsGroup CGraph::GetAllLoopsItems() const {
       const auto item = toVisit.back();
       toVisit.pop_back();
       component.push_back(item);
-      for (const auto child : graph[item].outputs) {
+      for (const auto child : graph[item].inputs) {
         if (!marked[child]) {
           toVisit.push_back(child);
           marked[child] = true;
